@@ -429,6 +429,14 @@ impl Recv {
             return Err(Error::library_reset(stream.id, Reason::PROTOCOL_ERROR));
         }
 
+        if frame.is_over_size() {
+            // The trailers did not fit SETTINGS_MAX_HEADER_LIST_SIZE; the fields
+            // beyond the limit were dropped while decoding. A truncated field
+            // section must not be handed to the application.
+            proto_err!(stream: "recv_trailers: trailers are over size; stream={:?};", stream.id);
+            return Err(Error::library_reset(stream.id, Reason::PROTOCOL_ERROR));
+        }
+
         let trailers = frame.into_fields();
 
         // Push the frame onto the stream's recv buffer
